@@ -998,18 +998,23 @@ def gen_set16(rng):
     tag = None
     extra_files = {}
     value_stdin = None
+    maps_ = [sg for sg, n in gen_docs.positions(doc) if n["t"] == "m"]
+    fresh = None
+    if maps_ and rng.random() < 0.25:
+        # a --change path that does not exist yet but could be created
+        fresh = gen_docs.render_path(rng.choice(maps_) + (("k", "zz"),), sep)
     if oper in ("aliasof", "aliasof-new"):
         src_segs, _n = rng.choice(anchored if oper == "aliasof"
                                   else plain_sc)
         others = [sg for sg, _n in scalars if sg != src_segs]
         segs = rng.choice(others)
-        path = gen_docs.render_path(segs, sep)
+        path = fresh or gen_docs.render_path(segs, sep)
         aliasof = gen_docs.render_path(src_segs, sep)
         if oper == "aliasof-new" or rng.random() < 0.3:
             newanchor = rng.choice(["newanc", "N1"])
     elif oper in ("tag", "tag-only"):
         segs, _n = rng.choice(scalars)
-        path = gen_docs.render_path(segs, sep)
+        path = fresh or gen_docs.render_path(segs, sep)
         tag = rng.choice(["mytag", "!t"])
     elif oper in ("file-value", "stdin-value"):
         segs, _n = rng.choice(scalars)
